@@ -12,6 +12,7 @@
   --   Cx.Spec.Sha1.blockBytes = 64, Cx.Spec.Sha1.digestBytes = 20
 -/
 import CxVerif.Util.Bytes
+import CxVerif.Spec.MerkleDamgard
 namespace Cx.Spec.Sha1
 open Cx
 
@@ -73,20 +74,20 @@ def Hash.add (x y : Hash) : Hash := ⟨x.a + y.a, x.b + y.b, x.c + y.c, x.d + y.
 def compress (H : Hash) (M : List UInt32) : Hash :=
   H.add (rounds 0 (schedule 64 M) H)
 
-/-- number of zero *bytes* of the padding: the smallest `k ≥ 0` with `len + 1 + k ≡ 56 (mod 64)`
-    (§5.1.1 in bits: `ℓ + 1 + k ≡ 448 mod 512`; theorem `Proofs.Sha1.padZeros_spec`) -/
-def padZeros (len : Nat) : Nat := (119 - len % 64) % 64
-
-/-- §5.1.1: the bit "1", `k` zero bits, the 64-bit big-endian bit length -/
-def pad (msg : Bytes) : Bytes :=
-  msg ++ [(0x80 : UInt8)] ++ zeros (padZeros msg.length) ++ natToBE 8 (8 * msg.length)
+/-- §5.1.1 at byte granularity: the bit "1" (byte 0x80), `k` zero bits, the 64-bit big-endian bit length.
+    `Spec.MD.pad 64 8` = `msg ‖ 0x80 ‖ 0^z ‖ be64 (8·|msg|)` with `z` the smallest number of zero bytes such that
+    the total is a multiple of 64 (theorem `Proofs.FB.padZeros_spec`: ℓ + 1 + k ≡ 448 mod 512, k least). -/
+def pad (msg : Bytes) : Bytes := Cx.Spec.MD.pad 64 8 Cx.Spec.MD.be64 msg
 
 def Hash.toBytes (h : Hash) : Bytes := u32be h.a ++ u32be h.b ++ u32be h.c ++ u32be h.d ++ u32be h.e
 
-/-- §5.2.1 + §6.1.2: parse into 512-bit blocks of big-endian words, iterate, output H0‖…‖H4 -/
-def hashBlocks (H : Hash) (blocks : List Bytes) : Hash :=
-  blocks.foldl (fun H blk => compress H (wordsBE32 blk)) H
+/-- one block given as 64 bytes: §5.2.1 parsing into sixteen big-endian words, then §6.1.2 -/
+def compressBytes (H : Hash) (blk : Bytes) : Hash := compress H (wordsBE32 blk)
 
-def sha1 (msg : Bytes) : Bytes := (hashBlocks H0 (chunks 64 (pad msg))).toBytes
+/-- §6.1: pad, parse into 512-bit blocks, iterate from H0 -/
+def hashValue (msg : Bytes) : Hash := Cx.Spec.MD.hash 64 8 Cx.Spec.MD.be64 compressBytes H0 msg
+
+/-- the message digest H0‖…‖H4 -/
+def sha1 (msg : Bytes) : Bytes := (hashValue msg).toBytes
 
 end Cx.Spec.Sha1
